@@ -9,13 +9,16 @@ export VERIF_REPO=$REPO
 export VERIF_TARGET=${VERIF_TARGET:-$VDIR/target_matrix}
 OUT=$VDIR/seed_matrix.jsonl
 : > "$OUT"
-PROPS="C01 C02 C03 C04 C05 C06 C07 C08 C09 C10 C11 C12 C13 C14 C15 C16 C17 C18 C19"
+CHEAP="C05 C09 C10 C11 C12 C13 C15 C17 C18 C19"
 cd "$REPO" || exit 2
 for P in "$VDIR"/seeded/*/patch.diff "$VDIR"/mutants/*.diff; do
   NAME=$(basename "$(dirname "$P")"); [ "$NAME" = mutants ] && NAME=$(basename "$P" .diff)
   git -C "$REPO" checkout -q -- . 2>/dev/null
   if ! git -C "$REPO" apply "$P" 2>/dev/null; then echo "{\"seed\":\"$NAME\",\"error\":\"patch does not apply\"}" >> "$OUT"; continue; fi
   LINE="{\"seed\":\"$NAME\""
+  OWN=$(echo "$NAME" | grep -oE '^C[0-9]+' || true)
+  case "$NAME" in prefix-D1*) OWN="C01 C02";; prefix-D4*) OWN=C06;; prefix-D5*|prefix-D6*) OWN=C13;; prefix-D7*) OWN=C15;; prefix-D8*|prefix-D9*) OWN=C16;; esac
+  PROPS=$(echo "$OWN $CHEAP" | tr ' ' '\n' | sort -u | tr '\n' ' ')
   for PR in $PROPS; do
     RES=$("$VDIR/run.sh" $PR quick 2>&1); RC=$?
     NV=$(echo "$RES" | grep -c '^VIOLATION')
